@@ -1,5 +1,5 @@
 (* Model of packets/fixedheader.go, the per-type Decode/Encode methods of packets/packets.go (after
-   the fix: commits de482bb, 1a5113d, a924969, bdb97b6) and the dispatch of clients.go ReadPacket.
+   the fixes: commits de482bb, 1a5113d, a924969, bdb97b6, 46da5a3) and the dispatch of clients.go ReadPacket.
    Same case splits, same order of reads, same unchecked indexing as the Go code.  A method that
    mutates the receiver becomes a function returning the updated packet.  No proofs in this file. *)
 From MV Require Import Base.Val Codec.Vbi Codec.Wire Codec.Props.
@@ -386,8 +386,8 @@ Definition disconnect_encode (pk : packet) : res bytes :=
     let* pb := enc_props pk 1 in finish pk (pk_reason_code pk :: pb)
   else finish pk [].
 
-(* PingreqEncode / PingrespEncode (packets.go:588-602): the header is written as it stands *)
-Definition ping_encode (pk : packet) : res bytes := fh_encode (pk_fh pk).
+(* PingreqEncode / PingrespEncode (packets.go:588-604, fixed): Remaining = 0, then the header *)
+Definition ping_encode (pk : packet) : res bytes := fh_encode (set_fh_remaining 0 (pk_fh pk)).
 
 (* PublishEncode (packets.go:610-636) *)
 Definition publish_encode (pk : packet) : res bytes :=
